@@ -38,6 +38,15 @@ package pointindex
 //@   requires 0 <= l && l <= d && d <= 32
 //@   ensures pow2(d) == pow2(l) * pow2(d - l) && pow2(d - l) >= 1 && pow2(l) >= 1
 
+// C06 (the "no points found" guard), C02: the pixel of an inserted point is stored on every level, and stays stored
+//@ macro kx(ix, X, l) = X / pow2(ix.deepestLevel - l)
+//@ macro storedK(ix, l, z) = hasKey(mget(ix.quadrants, l), z)
+//@ macro coordX(ix, pt) = (trunc(pt[0] * 10000000000) - ix.intExtent[0]) / ix.deepestRes
+//@ macro coordY(ix, pt) = (trunc(pt[1] * 10000000000) - ix.intExtent[1]) / ix.deepestRes
+//@ macro zAt(ix, pt, j) = interleave(kx(ix, coordX(ix, pt), j), kx(ix, coordY(ix, pt), j))
+//@ macro coordCovered(ix, X, Y) = forall(j Int, 0 <= j && j <= ix.deepestLevel ==> storedQ(ix, j, interleave(kx(ix, X, j), kx(ix, Y, j))), trigger(hasKey(ix.quadrants, j)))
+//@ macro ptCovered(ix, pt) = coordCovered(ix, coordX(ix, pt), coordY(ix, pt))
+//@ macro keepsStored(ix) = forall(l2 Int, z2 Int, old(storedQ(ix, l2, z2)) ==> storedQ(ix, l2, z2), trigger(storedK(ix, l2, z2)))
 //@ func (*PointIndex).InsertCoord
 //@   prelude arith morton
 //@   requires wfIndex(ix) && indexInv0(ix) && indexGrid(ix)
@@ -46,13 +55,13 @@ package pointindex
 //@   ensures[C09] result != nil ==> unchanged(ix.quadrants) && typeIs(result, "pointindex.OutsideGridError")
 //@   ensures wfIndex(ix) && indexInv0(ix) && indexGrid(ix)
 //@   ensures result == nil ==> storedQ(ix, 0, 0) && (roundGrid(ix) ==> indexInv(ix))
+//@   ensures[C06,C02] result == nil ==> coordCovered(ix, deepestX, deepestY)
+//@   ensures[C06,C02] keepsStored(ix)
 
 // insertCoord keeps the representation invariants of the quadtree and stores the root. Inside the loop they are kept in
 // the form the code maintains them - every stored pixel is a function of its level and key on the grid (gridInv), and
 // the parent of a stored pixel is stored (parentClosed) - and turned back into the form the descent consumes
 // (entryInv, linkInv) by pure arithmetic lemmas at the end.
-//@ macro kx(ix, X, l) = X / pow2(ix.deepestLevel - l)
-//@ macro storedK(ix, l, z) = hasKey(mget(ix.quadrants, l), z)
 //@ macro gridEntry(ix, l, z) = quadOf(ix, l, z).z == z && 0 <= z && z <= 0xFFFFFFFFFFFFFFFF && even_bits(z) < pow2(l) && even_bits(z >> 1) < pow2(l)
 //@     && quadOf(ix, l, z).intExtent == gridExt(ix, l, even_bits(z), even_bits(z >> 1))
 //@     && quadOf(ix, l, z).intCentroid == gridCentre(ix, l, even_bits(z), even_bits(z >> 1))
@@ -69,7 +78,8 @@ package pointindex
 //@     invariant 0 <= deepestX && deepestX < ix.deepestSize && 0 <= deepestY && deepestY < ix.deepestSize
 //@     invariant gridInv(ix) using stepassert(2); stepassert(4)
 //@     invariant parentClosed(ix) using stepassert(1); stepassert(2); stepassert(3)
-//@     invariant l >= 1 ==> storedQ(ix, l - 1, interleave(kx(ix, deepestX, l - 1), kx(ix, deepestY, l - 1))) using stepassert(1); stepassert(2)
+//@     invariant forall(j Int, 0 <= j && j < l ==> storedQ(ix, j, interleave(kx(ix, deepestX, j), kx(ix, deepestY, j))), trigger(hasKey(ix.quadrants, j))) using only; inv(5); stepassert(1); stepassert(2); stepassert(5)
+//@     invariant forall(l2 Int, z2 Int, old(storedQ(ix, l2, z2)) ==> storedQ(ix, l2, z2), trigger(storedK(ix, l2, z2))) using stepassert(5)
 //@     invariant l >= 1 ==> storedQ(ix, 0, 0) using stepassert(1); stepassert(2)
 //@     loopuse l <= ix.deepestLevel ==> pow2_split(ix.deepestLevel, l) && div_bound(deepestX, ix.deepestLevel, l) && div_bound(deepestY, ix.deepestLevel, l)
 //@     loopuse l <= ix.deepestLevel ==> roundtrip(kx(ix, deepestX, l), kx(ix, deepestY, l)) && zero_key(0)
@@ -81,6 +91,7 @@ package pointindex
 //@     stepassert storedQ(ix, athead(l), z) && gridEntry(ix, athead(l), z) using stepassert(1)
 //@     stepassert athead(l) >= 1 ==> z / 4 == interleave(kx(ix, deepestX, athead(l) - 1), kx(ix, deepestY, athead(l) - 1)) using stepassert(1)
 //@     stepassert forall(l2 Int, z2 Int, storedQ(ix, l2, z2) && !(l2 == athead(l) && z2 == z) ==> athead(storedQ(ix, l2, z2)) && quadOf(ix, l2, z2) == athead(quadOf(ix, l2, z2)), trigger(storedK(ix, l2, z2)))
+//@     stepassert forall(l2 Int, z2 Int, athead(storedQ(ix, l2, z2)) ==> storedQ(ix, l2, z2), trigger(storedK(ix, l2, z2)))
 //@     decreases ix.deepestLevel + 1 - l
 //@   ensures wfIndex(ix)
 //@   proves gridInv(ix) && parentClosed(ix)
@@ -107,6 +118,10 @@ package pointindex
 //@   ensures[C02,C03,C08,C09,C05,C06] indexInv0(ix) using only; post(8); post(15); post(17)
 //@   ensures[C02,C03,C08,C09,C05,C06] storedQ(ix, 0, 0)
 //@   ensures[C02,C03,C08,C09,C05,C06] roundGrid(ix) ==> indexInv(ix) using only; post(16); post(18); post(19)
+// C06 (the "no points found" guard): the pixel of the inserted coordinate is stored on every level, and nothing that
+// was stored is lost
+//@   ensures[C06,C02] coordCovered(ix, deepestX, deepestY)
+//@   ensures[C06,C02] keepsStored(ix)
 
 // pure arithmetic of the grid (no index involved); in insertCoord, where products are opaque, instances of these
 // lemmas are all that is known about them
@@ -127,6 +142,25 @@ package pointindex
 //@   use pow2_step(d - l + 1) && pow2_pos(d - l)
 //@   ensures gs(res, d, l - 1) == 2 * gs(res, d, l) && hfloor(gs(res, d, l - 1)) == gs(res, d, l)
 //@   ensures (x / 2) * gs(res, d, l - 1) + ite(x % 2 == 1, gs(res, d, l), 0) == x * gs(res, d, l)
+// the deepest-level coordinate of a point inside the grid is inside the grid
+//@ lemma coord_bound(px Int, minx Int, res Int, d Int)
+//@   prelude arith
+//@   requires res > 0 && 0 <= d && d <= 32 && minx <= px && px < minx + pow2(d) * res
+//@   use pow2_pos(d)
+//@   ensures 0 <= (px - minx) / res && (px - minx) / res < pow2(d)
+// a point lies in the pixel of its own coordinate, on every level
+//@ lemma pix_contains(px Int, minx Int, res Int, d Int, l Int)
+//@   prelude arith
+//@   requires res > 0 && 0 <= l && l <= d && d <= 32 && minx <= px
+//@   use pow2_pos(d - l)
+//@   ensures 0 <= ((px - minx) / res) / pow2(d - l)
+//@   ensures minx + (((px - minx) / res) / pow2(d - l)) * gs(res, d, l) <= px
+//@   ensures px < minx + (((px - minx) / res) / pow2(d - l) + 1) * gs(res, d, l)
+// floorDiv (Go: truncating quotient, one less when the remainder is negative) is the integer division rounding down
+//@ lemma floor_div(n Int, d Int)
+//@   prelude arith
+//@   requires d > 0
+//@   ensures ite(tmod(n, d) < 0, tdiv(n, d) - 1, tdiv(n, d)) == n / d
 //@ lemma tm_zero_one(k Int, s Int)
 //@   prelude arith
 //@   requires k == 0
@@ -155,19 +189,28 @@ package pointindex
 // The float -> int conversion (x 1e10, truncated) is modelled over the reals; |ordinate| < 8e8 keeps it inside int64.
 //@ func (*PointIndex).InsertPoint
 //@   prelude arith morton
+//@   opaquediv
 //@   requires wfIndex(ix) && indexInv0(ix) && indexGrid(ix)
 //@   requires 0 - 800000000 < point[0] && point[0] < 800000000 && 0 - 800000000 < point[1] && point[1] < 800000000
 //@   let px = trunc(point[0] * 10000000000)
 //@   let py = trunc(point[1] * 10000000000)
+//@   use floor_div(px - ix.intExtent[0], ix.deepestRes) && floor_div(py - ix.intExtent[1], ix.deepestRes)
 //@   modifies ix.quadrants
 //@   ensures[C09] (result == nil) == inGrid(ix, px, py)
 //@   ensures[C09] result != nil ==> unchanged(ix.quadrants) && typeIs(result, "pointindex.OutsideGridError")
 //@   ensures wfIndex(ix) && indexInv0(ix) && indexGrid(ix)
 //@   ensures result == nil ==> storedQ(ix, 0, 0) && (roundGrid(ix) ==> indexInv(ix))
+//@   postlet dx = deepestX
+//@   postlet dy = deepestY
+//@   proves dx == coordX(ix, point) && dy == coordY(ix, point)
+//@   proves result == nil ==> coordCovered(ix, dx, dy)
+//@   ensures[C06,C02] result == nil ==> ptCovered(ix, point) using only; post(5); post(6)
+//@   ensures[C06,C02] keepsStored(ix)
 
 //@ macro coordOK(pt) = 0 - 800000000 < pt[0] && pt[0] < 800000000 && 0 - 800000000 < pt[1] && pt[1] < 800000000
 //@ macro inGridF(ix, pt) = inGrid(ix, trunc(pt[0] * 10000000000), trunc(pt[1] * 10000000000))
 //@ macro allCoordsOK(polygon) = forall(a, 0, len(polygon), forall(b, 0, len(polygon[a]), coordOK(polygon[a][b])))
+//@ macro allCovered(ix, polygon) = forall(a, 0, len(polygon), forall(b, 0, len(polygon[a]), ptCovered(ix, polygon[a][b])))
 //@ macro allInGrid(ix, polygon) = forall(a, 0, len(polygon), forall(b, 0, len(polygon[a]), inGridF(ix, polygon[a][b])))
 
 // C09: InsertPolygon succeeds exactly when every vertex of every ring lies in the half-open grid.
@@ -176,6 +219,7 @@ package pointindex
 //@ macro idxOK(ix) = wfIndex(ix) && indexInv0(ix) && indexGrid(ix)
 //@ func (*PointIndex).InsertPolygon
 //@   prelude arith morton
+//@   opaquediv
 //@   requires idxOK(ix) && allCoordsOK(polygon)
 //@   modifies ix.quadrants
 //@   loop ring havoc
@@ -186,6 +230,7 @@ package pointindex
 //@     invariant 0 - 1 <= r && r < len(polygon) && idxOK(ix)
 //@     invariant forall(a, 0, r + 1, forall(b, 0, len(polygon[a]), inGridF(ix, polygon[a][b])))
 //@     invariant forall(a, 0, r + 1, len(polygon[a]) > 0 ==> rootStored(ix))
+//@     invariant[C06,C02] forall(a, 0, r + 1, forall(b, 0, len(polygon[a]), ptCovered(ix, polygon[a][b]))) using only; loopinv(v, 1); loopinv(v, 2); loopinv(v, 7); loopinv(v, 8)
 //@     decreases len(polygon) - r
 //@   loop vertex as v
 //@     invariant 0 - 1 <= r && r + 1 < len(polygon) && idxOK(ix)
@@ -194,6 +239,11 @@ package pointindex
 //@     invariant forall(b, 0, v + 1, inGridF(ix, polygon[r + 1][b]))
 //@     invariant forall(a, 0, r + 1, len(polygon[a]) > 0 ==> rootStored(ix))
 //@     invariant v >= 0 ==> rootStored(ix)
+//@     invariant[C06,C02] forall(a, 0, r + 1, forall(b, 0, len(polygon[a]), ptCovered(ix, polygon[a][b]))) using only; inv(1); inv(2); inv(7); stepassert(1)
+//@     invariant[C06,C02] forall(b Int, 0 <= b && b < v + 1 ==> ptCovered(ix, polygon[r + 1][b]), trigger(polygon[r + 1][b])) using only; inv(1); inv(2); stepassert(2); stepassert(3)
+//@     stepassert forall(l2 Int, z2 Int, athead(storedQ(ix, l2, z2)) ==> storedQ(ix, l2, z2), trigger(storedK(ix, l2, z2)))
+//@     stepassert ptCovered(ix, polygon[r + 1][v])
+//@     stepassert v == athead(v) + 1 && forall(b Int, 0 <= b && b < athead(v) + 1 ==> ptCovered(ix, polygon[r + 1][b]), trigger(polygon[r + 1][b])) using only; inv(1); inv(2); inv(8); stepassert(1)
 //@     decreases len(polygon[r + 1]) - v
 //@   witness wa = r + 1
 //@   witness wb = v + 1
@@ -202,6 +252,7 @@ package pointindex
 //@   ensures[C09] result != nil ==> typeIs(result, "pointindex.OutsideGridError")
 //@   ensures idxOK(ix)
 //@   ensures result == nil ==> forall(a, 0, len(polygon), len(polygon[a]) > 0 ==> rootStored(ix))
+//@   ensures[C06,C02] result == nil ==> allCovered(ix, polygon)
 //@   ensures idxOK(ix)
 //@   ensures result == nil ==> forall(a, 0, len(polygon), len(polygon[a]) > 0 ==> rootStored(ix))
 
@@ -477,6 +528,7 @@ package pointindex
 //@     invariant !isNil(quadrantsIntersectedPerLevel)
 //@     invariant forall(l Int, 0 <= l && l < level && hasKey(levelMap, l) ==> hasKey(quadrantsIntersectedPerLevel, l) && listSound(ix, intLine, l, quadrantsIntersectedPerLevel[l]))
 //@     invariant forall(l Int, hasKey(quadrantsIntersectedPerLevel, l) ==> hasKey(levelMap, l) && 0 <= l && l < level)
+//@     invariant[C06,C02] forall(l Int, z Int, 0 <= l && l < level && hasKey(levelMap, l) && storedQ(ix, l, z) && meets(intLine, quadOf(ix, l, z).intExtent) ==> len(quadrantsIntersectedPerLevel[l]) > 0, trigger(quadOf(ix, l, z)))
 //@     decreases ix.deepestLevel + 1 - level
 //@   loop parent as k
 //@     invariant 0 - 1 <= k && k < len(parents)
@@ -485,6 +537,7 @@ package pointindex
 //@     decreases len(parents) - k
 //@   ensures[C02,C03,C08] result == nil || forall(l Int, hasKey(result, l) ==> hasKey(levelMap, l) && l <= ix.deepestLevel && listSound(ix, intLine, l, result[l]))
 //@   ensures[C02,C03,C08] meets(intLine, ix.intExtent) && len(levelMap) > 0 ==> forall(l Int, 0 <= l && l <= ix.deepestLevel && hasKey(levelMap, l) ==> hasKey(result, l))
+//@   ensures[C06,C02] meets(intLine, ix.intExtent) && len(levelMap) > 0 ==> forall(l Int, z Int, 0 <= l && l <= ix.deepestLevel && hasKey(levelMap, l) && storedQ(ix, l, z) && meets(intLine, quadOf(ix, l, z).intExtent) ==> len(result[l]) > 0, trigger(quadOf(ix, l, z)))
 
 // bookkeeping of which ring hit which centre how often: only safety is claimed (C06)
 //@ func checkPointHits
@@ -499,6 +552,8 @@ package pointindex
 // that the segment meets (qs: the lists of the descent, position by position).
 //@ macro geomPt(c) = arr(c[0] / 10000000000, c[1] / 10000000000)
 //@ macro segCoordOK(p) = 0 - 200000000 < p[0] && p[0] < 200000000 && 0 - 200000000 < p[1] && p[1] < 200000000
+// the point (as the index sees it: x 1e10, truncated) lies in the half-open extent
+//@ macro ptIn(p, e) = e[0] <= trunc(p[0] * 10000000000) && trunc(p[0] * 10000000000) < e[2] && e[1] <= trunc(p[1] * 10000000000) && trunc(p[1] * 10000000000) < e[3]
 //@ func (*PointIndex).SnapClosestPoints
 //@   mode real
 //@   prelude geom arith
@@ -510,6 +565,7 @@ package pointindex
 //@     invariant !isNil(pointsPerLevel) && !isNil(ix.hitOnce) && !isNil(ix.hitMultiple)
 //@     invariant forall(l Int, hasKey(pointsPerLevel, l) ==> hasKey(quadrantsPerLevel, l) && len(pointsPerLevel[l]) == len(quadrantsPerLevel[l]) && len(pointsPerLevel[l]) > 0)
 //@     invariant forall(l Int, hasKey(pointsPerLevel, l) ==> forall(i, 0, len(pointsPerLevel[l]), pointsPerLevel[l][i] == geomPt(quadrantsPerLevel[l][i].intCentroid)))
+//@     invariant[C06,C02] forall(l Int, seen_it[l] && len(quadrantsPerLevel[l]) > 0 ==> hasKey(pointsPerLevel, l), trigger(seen_it[l]))
 //@   loop quadrant as qi
 //@     invariant 0 - 1 <= qi && qi < len(quadrants) && len(points) == len(quadrants)
 //@     invariant forall(i, 0, qi + 1, points[i] == geomPt(quadrants[i].intCentroid))
@@ -522,3 +578,10 @@ package pointindex
 //@   ensures[C03,C02,C08] forall(l Int, hasKey(result, l) ==> hasKey(qs, l) && len(result[l]) == len(qs[l]) && len(result[l]) > 0)
 //@   ensures[C03,C02,C08] forall(l Int, hasKey(result, l) ==> forall(i, 0, len(result[l]), result[l][i] == geomPt(qs[l][i].intCentroid)))
 //@   ensures[C03,C02,C08] isNil(qs) || forall(l Int, hasKey(qs, l) ==> hasKey(levelMap, l) && l <= ix.deepestLevel && listSound(ix, il, l, qs[l]))
+// C06 (the "no points found" guard), C02: a level that is asked for and on which the start of the segment lies in a
+// stored pixel gets a non-empty list (the descent is complete, and the start point is a witness for "meets")
+//@   postuse forall(l Int, z Int, meets_def2(il, quadOf(ix, l, z).intExtent, 0), trigger(quadOf(ix, l, z)))
+//@   postuse meets_def2(il, ix.intExtent, 0)
+//@   proves forall(l Int, hasKey(qs, l) && len(qs[l]) > 0 ==> hasKey(result, l) && len(result[l]) > 0, trigger(hasKey(qs, l)))
+//@   ensures[C06,C02] forall(l Int, z Int, len(levelMap) > 0 && hasKey(levelMap, l) && 0 <= l && l <= ix.deepestLevel && storedQ(ix, l, z) && ptIn(line[0], quadOf(ix, l, z).intExtent) && ptIn(line[0], ix.intExtent)
+//@               ==> hasKey(result, l) && len(result[l]) > 0, trigger(quadOf(ix, l, z)))
